@@ -13,7 +13,8 @@
 //! Three things the writer cannot produce are added afterwards by appending data to the file and
 //! patching the referring (count, offset) pair, which is legal in an offset-addressed format:
 //!   * texture file names (the writer computes the position of a texture definition from
-//!     `size_of::<M2Header>()`, the in-memory size of the Rust struct, and patches the wrong place),
+//!     `size_of::<M2Header>()`, the in-memory size of the Rust struct (376 bytes; the file header is
+//!     304 bytes for 264 and 328 for 256), patches the wrong place and the name is lost),
 //!   * the inner per-sequence arrays of WotLK+ tracks (the writer copies the outer array verbatim),
 //!   * the small u16 / string / vec2 arrays referenced from ribbon and particle emitters.
 //! Event `ranges` are left empty: the writer emits their bytes without accounting for them.
@@ -681,6 +682,11 @@ impl Inv<'_> {
             self.arr(rel + 20, &format!("{name}.values"), vsz, Some((t.values.array.count, t.values.array.offset)));
         } else {
             assert_eq!((self.u32(rel + 12), self.u32(rel + 20), self.u32(rel + 24)), (t.timestamps.count, t.values.array.count, t.values.array.offset));
+            if t.timestamps.count == 0 && t.values.array.count == 0 {
+                // an empty block goes through the same parser code as the fully inventoried first
+                // block of the element; keep the inventory (and the quick tier) small
+                return;
+            }
             let p = self.base0 + rel;
             let nm = format!("{}{}", self.prefix, name);
             let vo = self.u32(rel + 24) as usize;
@@ -1159,9 +1165,6 @@ fn build_chunked(name: &str) -> Seed {
 }
 
 pub fn build(name: &str) -> Seed {
-    if std::env::var("C05_M2_DEBUG").is_ok() {
-        let _ = std::panic::take_hook();
-    }
     match name {
         "wotlk-264" => build_legacy(name, 264, false),
         "wotlk-264-min" => build_legacy(name, 264, true),
